@@ -287,6 +287,10 @@ class DataConnection(Connection, abc.ABC):
         except Exception as exc:
             adapter.warning(
                 "exception while disconnecting : %r", exc, extra=self.__dict__)
+            # Data that could not be sent (peer not reading) keeps the
+            # transport and its socket open after close(): drop it
+            if self._writer is not None:
+                self._writer.transport.abort()
 
         finally:
             if not writer_handled and self._writer is not None:
